@@ -90,9 +90,14 @@ def check_word(r, w, fam, containers=('f', 'i', 'l')):
     extra = ()
     if n <= 6 and min(w) >= 0 and max(w) <= 4:
         extra = ('u8', 'i16x100')     # unsigned (wrap-around on a falling step) and narrow integers with large steps
+    if n <= 6:
+        # the statement is exact and scale-free: the same pattern at 1e-9 of the amplitude, and riding on a large level with tiny steps
+        # (steps below 1e-8 absolute / 1e-5 relative are still steps)
+        extra = extra + ('x1e-9', 'offset1e3+x1e-7')
     for c in tuple(containers) + extra:
         arr = (np.array(w, dtype=float) if c == 'f' else np.array(w, dtype=np.int64) if c == 'i' else np.array(w, dtype=np.uint8) if c == 'u8'
-               else (np.array(w) * 100).astype(np.int16) if c == 'i16x100' else list(w))
+               else (np.array(w) * 100).astype(np.int16) if c == 'i16x100' else np.array(w, dtype=float) * 1e-9 if c == 'x1e-9'
+               else 1000.0 + np.array(w, dtype=float) * 1e-7 if c == 'offset1e3+x1e-7' else list(w))
         sub = dict(sub0, input=c)
         ok, got = r.call('all', sub, pc.get_peak_array_indices, arr)
         if ok:
@@ -130,38 +135,38 @@ def check_word(r, w, fam, containers=('f', 'i', 'l')):
                 ok, got = r.call('all', sub, reused)
                 if ok:
                     r.expect_ints('all.object-after-reset_values', sub, got, ref.turning_points(wn)[0])
-    # cycle counter
-    arr = np.array(w, dtype=float)
-    for opt in ('all', 'switched'):
-        if opt == 'all':
-            P = list(idx)
-        else:
-            ok, sw = r.call('ncyc', dict(sub0, opt=opt), pc.get_switched_peak_array_indices, arr)
-            if not ok:
-                continue
-            try:
-                P = [int(v) for v in np.asarray(sw).tolist()]
-            except Exception:
-                continue
-            if not P or any(b <= a for a, b in zip(P, P[1:])) or P[0] < 0 or P[-1] >= n:
-                continue  # malformed switched peaks are C12's business
-            if P[0] != 0:
-                P = [0] + P
-            r.cls('ncyc-switched')
-        for start in ('origin', 'peak'):
-            sub = dict(sub0, opt=opt, start=start)
-            ok, c = r.call('ncyc', sub, pc.get_n_cyc_array, arr, opt, start)
-            if not ok:
-                continue
-            try:
-                c = np.asarray(c, dtype=float)
-                if not r.expect('ncyc.length', sub, c.shape == (n,), 'length %r != %d' % (c.shape, n)):
-                    continue
-                r.expect('ncyc.non-decreasing', sub, bool(np.all(np.diff(c) >= -1e-12)), 'decreases', observed=c)
-                want = [0.0] + [(0.25 if start == 'origin' else 0.5) + 0.5 * (j - 1) for j in range(1, len(P))]
-                r.expect_close('ncyc.at-peaks', sub, c[P], want, rtol=1e-12, atol=1e-12)
-            except Exception as e:
-                r.fail('ncyc', sub, 'malformed result: %s' % e, observed=c)
+    # cycle counter (also at 1e-9 of the amplitude for the short words)
+    for scale_tag, arr in ((('', np.array(w, dtype=float)),) + (((' x1e-9', np.array(w, dtype=float) * 1e-9),) if n <= 5 else ())):
+      for opt in ('all', 'switched'):
+          if opt == 'all':
+              P = list(idx)
+          else:
+              ok, sw = r.call('ncyc', dict(sub0, opt=opt + scale_tag), pc.get_switched_peak_array_indices, arr)
+              if not ok:
+                  continue
+              try:
+                  P = [int(v) for v in np.asarray(sw).tolist()]
+              except Exception:
+                  continue
+              if not P or any(b <= a for a, b in zip(P, P[1:])) or P[0] < 0 or P[-1] >= n:
+                  continue  # malformed switched peaks are C12's business
+              if P[0] != 0:
+                  P = [0] + P
+              r.cls('ncyc-switched')
+          for start in ('origin', 'peak'):
+              sub = dict(sub0, opt=opt + scale_tag, start=start)
+              ok, c = r.call('ncyc', sub, pc.get_n_cyc_array, arr, opt, start)
+              if not ok:
+                  continue
+              try:
+                  c = np.asarray(c, dtype=float)
+                  if not r.expect('ncyc.length', sub, c.shape == (n,), 'length %r != %d' % (c.shape, n)):
+                      continue
+                  r.expect('ncyc.non-decreasing', sub, bool(np.all(np.diff(c) >= -1e-12)), 'decreases', observed=c)
+                  want = [0.0] + [(0.25 if start == 'origin' else 0.5) + 0.5 * (j - 1) for j in range(1, len(P))]
+                  r.expect_close('ncyc.at-peaks', sub, c[P], want, rtol=1e-12, atol=1e-12)
+              except Exception as e:
+                  r.fail('ncyc', sub, 'malformed result: %s' % e, observed=c)
 
 
 def run_case(case):
